@@ -836,8 +836,12 @@ def r3(ctx):
                     used = {x.id for x in ast.walk(st.value)
                             if isinstance(x, ast.Name)}
                     for t in st.targets:
-                        if isinstance(t, ast.Name) and t.id not in used:
-                            rebound.add(t.id)
+                        # `a, b = f(x)` re-binds a and b just as well
+                        for t_ in (t.elts if isinstance(t, ast.Tuple)
+                                   else [t]):
+                            if isinstance(t_, ast.Name) and \
+                                    t_.id not in used:
+                                rebound.add(t_.id)
             n += 1
             seen = set()
             for x in exp:
